@@ -16,6 +16,10 @@
 (*                (arrival instead of rank)  -> refutes Best               *)
 (*   "offbyone"   inner window starts at `from` instead of from+1          *)
 (*                -> refutes WindowLaw                                     *)
+(*   "segcand"    the as-built candidate list of S18a (limit 2, hits 1-4   *)
+(*                in segment 0, hits 5-6 in segment 1; the best 3 hits of  *)
+(*                each segment are collapsed)  -> refutes Best; the exact  *)
+(*                prefix ("prefix") satisfies every structural law         *)
 (* Every PrintMod-th case is printed as a CASE line for replay through the *)
 (* real engine (svh extras --mode collapse --cases).                       *)
 (***************************************************************************)
@@ -68,7 +72,12 @@ OffByOne(V) ==
                 LET s == SortSeqBy(RestOf(V, K, tops[i]), Before) IN
                 SubSeq(s, MaxI(cfg.from, 1), IF cfg.hassize THEN MinI(Len(s), cfg.from + cfg.size) ELSE Len(s))]]
 
-C == IF Variant = "arrival" THEN Arrival(Valued(L, HasK))
+SegOf(h) == IF h.id <= 4 THEN 0 ELSE 1
+First2(c) == [tops |-> SubSeq(c.tops, 1, MinI(2, Len(c.tops))), inner |-> SubSeq(c.inner, 1, MinI(2, Len(c.tops)))]
+
+C == IF Variant = "segcand" THEN First2(Collapsed(AsBuiltCandidates(L, SegOf, 3, TRUE), HasK, K, Before, Opt(cfg)))
+     ELSE IF Variant = "prefix" THEN First2(Collapsed(AsBuiltCandidates(L, SegOf, 3, FALSE), HasK, K, Before, Opt(cfg)))
+     ELSE IF Variant = "arrival" THEN Arrival(Valued(L, HasK))
      ELSE IF Variant = "offbyone" THEN OffByOne(Valued(L, HasK))
      ELSE Collapsed(L, HasK, K, Before, Opt(cfg))
 
